@@ -279,9 +279,8 @@ def compile_one(tree, comp, src, obj):
         cmd = [tree + "/chibicc", "-I" + tree + "/include", "-c", "-o", obj, src]
     else:
         cmd = ["gcc", "-O1", "-w", "-DGCC_SIDE", "-fno-omit-frame-pointer", "-c", "-o", obj, src]
-    try:
-        p = vt.sh(cmd, timeout=300)
-    except subprocess.TimeoutExpired:
+    p = vt.run_limited(cmd, timeout=300, mem_gb=4)      # chibicc, or gcc on generated text
+    if p.returncode == -999:
         return "timeout"
     return None if p.returncode == 0 and os.path.exists(obj) else (p.stderr[-400:] or "rc=%d" % p.returncode)
 
@@ -319,12 +318,8 @@ def run_batch(ctx, tree, cases, d):
             raise Infra("link failed: " + p.stderr[-400:])
         start = 0
         while start < len(cases):
-            try:
-                p = subprocess.run([exe, str(start)], capture_output=True, text=True, timeout=60, errors="replace")
-                rc, out = p.returncode, p.stdout
-            except subprocess.TimeoutExpired as e:
-                out = e.stdout or ""
-                rc, out = -99, out.decode(errors="replace") if isinstance(out, bytes) else out
+            p = vt.run_limited([exe, str(start)], timeout=60, mem_gb=2, errors="replace")
+            rc, out = p.returncode, p.stdout or ""
             got = {}
             for line in out.splitlines():
                 f = line.split()
